@@ -63,12 +63,12 @@ for d in glob.glob(os.path.join(V, "seeded", "*")):
     now["obsolete" if m.get("obsolete") else r.split(" by ")[0]] += 1
 _pp = collections.Counter(os.path.basename(d).split("-")[0] for d in glob.glob(os.path.join(V, "seeded", "*")))
 _span = "%d to %d per property, 12 rounds" % (min(_pp.values()), max(_pp.values()))
-out.append("%d confirmed seeded changes (" + _span + "; each written by a fresh agent that saw only the property text "
+out.append(("%d confirmed seeded changes (" + _span + "; each written by a fresh agent that saw only the property text "
            "and the list of mechanisms already taken). **First run** against the check as it stood then: %s. Every miss or half-detection "
            "was answered by strengthening the model, the theorems, the source ties or the generators (never by loosening), which on the way "
            "exposed most of the genuine defects of §11.4. **Now** (re-run of every seed against /repo HEAD by `tools_seed_recheck.py`): %s. "
            "A seed marked OBSOLETE is no longer reachable after a `fix:` commit (its own demo passes on the patched current tree). "
-           "Where a sibling property's check is the one that sees a change (`checked_by` in meta.json), the detection text says so.\n"
+           "Where a sibling property's check is the one that sees a change (`checked_by` in meta.json), the detection text says so.\n")
            % (sum(first.values()), ", ".join("%d %s" % (v, k) for k, v in first.most_common()),
               ", ".join("%d %s" % (v, k) for k, v in now.most_common())))
 out.append("| seeded change | property | needs to manifest | detection history | last re-check (tools_seed_recheck.py) |")
